@@ -62,7 +62,8 @@ func teardownKind() kindDef {
 			if !thorough && cfg != "radius" {
 				return nil
 			}
-			return discForms(prefix == "ADDR" || prefix == "EST", thorough)
+			// thorough: every attribute subset in configuration "radius", the quick set in the others
+			return discForms(prefix == "ADDR" || prefix == "EST", thorough && cfg == "radius")
 		},
 		run: runTeardown,
 	}
